@@ -259,6 +259,18 @@ def replay_login_live(label):
             conn.socket.send(b'hello world')
             if sent[-1] != ref.encryptor().update(b'hello world'):
                 bad = 'bytes after the swap are not AES-CFB8(secret, secret) of the plaintext'
+            else:
+                # the inbound direction is ONE stream, whichever of file_object.read / socket.recv takes the bytes
+                plain = bytes(range(200))
+                incoming = ref.encryptor().update(b'') or b''
+                wire_in = Cipher(algorithms.AES(secret), modes.CFB8(secret), backend=default_backend()).encryptor().update(plain)
+                import io
+                raw_in = io.BytesIO(wire_in)
+                conn.file_object.actual_file_object = raw_in
+                conn.socket.actual_socket.recv = raw_in.read
+                got = conn.file_object.read(41) + conn.socket.recv(100) + conn.file_object.read(59)
+                if got != plain:
+                    bad = 'inbound stream read through file_object.read and socket.recv does not decrypt as one stream'
     return dict(confirmed=bad is not None, n=1, call='LoginReactor.react(encryption request) with a real RSA-1024 key', observed=bad or 'conforms')
 
 
@@ -457,8 +469,141 @@ def replay_disconnect():
     return dict(confirmed=False, n=n, call='login disconnect bodies', observed='conform')
 
 
+class LoginTables(Unit):
+    """Which login packets exist at which version, under which ids, and the plugin exchange on the wire - against the
+    reference in spec/protocol_ref.py (trusted), for a symbolic supported version."""
+    prop = 'C10'
+    name = 'C10.login.tables'
+    functions = ('minecraft.networking.packets.clientbound.login.get_packets',
+                 'minecraft.networking.packets.serverbound.login.get_packets',
+                 'minecraft.networking.packets.clientbound.login.*.get_id', 'minecraft.networking.packets.serverbound.login.*.get_id',
+                 'minecraft.networking.packets.clientbound.login.PluginRequestPacket.read',
+                 'minecraft.networking.packets.serverbound.login.PluginResponsePacket.write_fields',
+                 L_ + ' [plugin request]')
+    uses = ('S4 protocol_later_eq', 'S3 String/TrailingByteArray codec contracts (C02)')
+    trusted = ('spec/protocol_ref.py login_ids / LOGIN_PLUGIN_FROM (reference table)',)
+
+    def setup(self, I):
+        from .common import install_version_contracts, unroll_varint
+        from .codec import install_buffer_model, install_string_contracts
+        install_version_contracts(I)
+        unroll_varint(I)
+        install_string_contracts(I)
+        install_buffer_model(I)
+
+    def run(self, I):
+        import minecraft
+        from spec import protocol_ref as REF, wire_sym as WS
+        from .common import sym_context
+        from pyvc.models import InStream
+        from pyvc.values import SBool
+        from minecraft.networking.packets import PacketBuffer
+        E = I.E
+        ctx, i = sym_context(I, 'supported')
+        IDX = minecraft.PROTOCOL_VERSION_INDICES
+        era = 2 if I.truth(i >= IDX[REF.LOGIN_SHIFT_UNTIL]) else 1 if I.truth(i >= IDX[REF.LOGIN_PLUGIN_FROM]) else 0
+        want_cb, want_sb = REF.login_ids((47, REF.LOGIN_PLUGIN_FROM, REF.LOGIN_SHIFT_UNTIL)[era])
+        for side, mod, want in (('clientbound', clientbound.login, want_cb), ('serverbound', serverbound.login, want_sb)):
+            got = I.call(mod.get_packets, ctx)
+            names = sorted(c.__name__ for c in got)
+            E.check('tables.%s-members' % side, names == sorted(want),
+                    note='login %s packets %r; the specification has %r in this version range' % (side, names, sorted(want)))
+            for c in got:
+                if c.__name__ in want:
+                    E.check('tables.%s-id[%s]' % (side, c.__name__), I.equals(I.call(I.getattr_(c, 'get_id'), ctx), want[c.__name__]))
+        table = {}
+        for c in I.call(I.getattr_(LoginReactor, 'get_clientbound_packets'), ctx):
+            table[I.call(I.getattr_(c, 'get_id'), ctx)] = c
+        if era == 0:
+            return None
+        # the plugin exchange, bytes in -> bytes out, for every message id / channel / payload
+        E.check('tables.reactor-dispatch', table.get(want_cb['PluginRequestPacket']) is clientbound.login.PluginRequestPacket,
+                note='the reactor resolves the specified id to PluginRequestPacket')
+        mid = E.new_int('message_id', 0, (1 << 32) - 1)
+        k = 1 + E.fork(5, 'varint-length')
+        E.assume(SBool(WS.varint_len_cond(mid.t, k)))
+        mid_bytes = SBytes([('byte', t) for t in WS.varint_terms(mid.t, k)])
+        chan = E.new_str('channel')
+        from .codec import make_atom
+        wire = mid_bytes + SBytes([make_atom(I, 'String', chan), make_atom(I, 'TrailingByteArray', SBytes([E.new_blob('data')]))])
+        pkt = clientbound.login.PluginRequestPacket()
+        I.setattr_(pkt, 'context', ctx)
+        try:
+            I.call(I.getattr_(pkt, 'read'), InStream(I, wire))
+        except PyRaise as e:
+            E.check('plugin.wire-decodable', False, note='%r' % (e.exc,))
+            return None
+        tr = Trace()
+        conn, r, sock, fobj = make_login(I, tr, True, proto=757)
+        conn.__dict__['context'] = ctx
+        try:
+            I.call(I.getattr_(r, 'react'), pkt)
+        except PyRaise as e:
+            E.check('plugin.wire-no-raise', False, note='%r' % (e.exc,))
+            return None
+        q = list(conn._outgoing_packet_queue)
+        E.check('plugin.wire-one-answer', len(q) == 1)
+        if len(q) != 1:
+            return None
+        E.check('plugin.wire-answer-id', I.equals(I.call(I.getattr_(q[0], 'get_id'), ctx), want_sb['PluginResponsePacket']))
+        buf = I.call(PacketBuffer)
+        I.call(I.getattr_(q[0], 'write_fields'), buf)
+        E.check('plugin.wire-answer-bytes', SBytes.of(I.call(I.getattr_(buf, 'get_writable'))) == mid_bytes + SBytes.of(b'\x00'),
+                note='the answer is VarInt(message id) + Boolean(false), nothing else')
+        return None
+
+    def replay(self, model, label):
+        return replay_login_tables()
+
+    def bounded(self, rng, tier):
+        rp = replay_login_tables()
+        return dict(name='C10.login.tables-concrete', evaluations=rp['n'],
+                    bound='every supported protocol: login tables and one plugin exchange through the real reactor',
+                    failures=[dict(call=rp['call'], observed=rp['observed'], witness='login-tables')] if rp['confirmed'] else [])
+
+
+def replay_login_tables():
+    import io
+    import minecraft
+    from spec import protocol_ref as REF, wire as W
+    n = 0
+    for p in sorted(minecraft.SUPPORTED_PROTOCOL_VERSIONS):
+        n += 1
+        ctx = ConnectionContext(protocol_version=p)
+        want_cb, want_sb = REF.login_ids(p)
+        for side, mod, want in (('clientbound', clientbound.login, want_cb), ('serverbound', serverbound.login, want_sb)):
+            got = {c.__name__: c.get_id(ctx) for c in mod.get_packets(ctx)}
+            if got != want:
+                return dict(confirmed=True, n=n, call='login %s packets at protocol %d' % (side, p),
+                            observed='%r, specification: %r' % (got, want))
+        if p < REF.LOGIN_PLUGIN_FROM:
+            continue
+        conn = object.__new__(Connection)
+        conn.context, conn._outgoing_packet_queue = ctx, deque()
+        conn._write_lock = threading.RLock()
+        r = LoginReactor(conn)
+        body = W.varint_enc(want_cb['PluginRequestPacket']) + W.varint_enc(300) + b'\x03a:b' + b'xyz'
+        r.clientbound_packets = {c.get_id(ctx): c for c in r.get_clientbound_packets(ctx)} if not hasattr(r, 'clientbound_packets') else r.clientbound_packets
+        cls = r.clientbound_packets.get(want_cb['PluginRequestPacket'])
+        if cls is not clientbound.login.PluginRequestPacket:
+            return dict(confirmed=True, n=n, call='login plugin request (id %#x) at protocol %d' % (want_cb['PluginRequestPacket'], p),
+                        observed='the reactor resolves the id to %r: the request is never answered' % (cls,))
+        pkt = cls(ctx)
+        pkt.read(io.BytesIO(body[1:]))
+        r.react(pkt)
+        out = [q for q in conn._outgoing_packet_queue]
+        if len(out) != 1 or out[0].get_id(ctx) != want_sb['PluginResponsePacket']:
+            return dict(confirmed=True, n=n, call='login plugin request at protocol %d' % p, observed='answers: %r' % (out,))
+        from minecraft.networking.packets import PacketBuffer
+        b = PacketBuffer()
+        out[0].write_fields(b)
+        if b.get_writable() != W.varint_enc(300) + b'\x00':
+            return dict(confirmed=True, n=n, call='login plugin request at protocol %d' % p, observed='answer bytes %s' % b.get_writable().hex())
+    return dict(confirmed=False, n=n, call='login tables', observed='conform')
+
+
 def units(tier):
     from . import c01
     fr = c01.ReadFrame()
     fr.prop, fr.name = 'C10', 'C10.frames-after-set-compression'
-    return [EncStep(), SimpleSteps(), DisconnectStep(), fr]
+    return [EncStep(), SimpleSteps(), DisconnectStep(), fr, LoginTables()]
